@@ -154,6 +154,13 @@ def analyse_function(fn, outer_tainted=()):
             pass
 
     def store_targets(n, state):
+        if isinstance(n, ast.AugAssign) and isinstance(n.target, ast.Name) and n.target.id in state:
+            # `name |= {...}` / `name += [...]` mutate the object the name refers to (dict / set / list), they do not rebind it
+            v = n.value
+            if (isinstance(n.op, ast.BitOr) and isinstance(v, (ast.Dict, ast.DictComp, ast.Set, ast.SetComp))) or \
+                    (isinstance(n.op, ast.Add) and isinstance(v, (ast.List, ast.ListComp))):
+                findings.append((n.lineno, f"in-place `{ast.unparse(n.target)} {type(n.op).__name__}= ...` on an object reachable from "
+                                           f"parameter `{n.target.id}`"))
         targets = n.targets if isinstance(n, ast.Assign) else [n.target]
         for t in targets:
             for tt in _flatten_targets(t):
